@@ -29,8 +29,9 @@ LEVEL_NOTE = ("Trusted: Coq kernel, extraction, the live-object -> tree abstract
               "(Module/Class.overloads) of the *result* are not compared (bookkeeping that depends on how often the loader merges). The loader's second "
               "merge of the same pair is modelled (load_package, residual) and checked by (C) only; its idempotence is not a theorem. Parent/path/"
               "collection consistency, stubs importing loaded objects and the wildcard facade against CPython are direct checks, not theorems.")
-MODEL = ("Model.C19_merge", "run_C19")
-COQ_TARGETS = ["Proofs/C19_merge.vo"]
+MODEL = ("Model.C19_reload", "run_C19")
+MODEL_TARGETS = ["Model/C19_reload.vo"]
+COQ_TARGETS = ["Proofs/C19_merge.vo", "Model/C19_reload.vo"]
 RULE = ("seeded random scope pairs: per name the runtime side is absent/attribute/function(+overloads)/class/alias and the stubs side is "
         "absent/attribute/function/overloads+implementation/overloads only/class/alias, with ~70% overlap, ~20% kind mismatch, classes nested to depth 3, "
         "stub parameters a random subset of the runtime ones plus extras, docstrings present/missing on each side independently; each pair is "
@@ -77,6 +78,7 @@ def gen_func(rng, tag, method, allow_overloads=True, base=None):
     f = {"params": names, "anns": {p: (rng.choice(ANNS) if rng.random() < p_ann else None) for p in names + ["args", "kw"]},
          "var": var, "ret": rng.choice(ANNS) if rng.random() < (0.85 if tag == "S" else 0.3) else None,
          "doc": None, "novl": 0, "impl": True, "method": method, "async": rng.random() < 0.08}
+    f["late"] = rng.randint(1, 2) if allow_overloads and rng.random() < (0.07 if tag == "S" else 0.03) else 0
     r = rng.random()
     if allow_overloads:
         if tag == "S":
@@ -188,6 +190,9 @@ def render_func(name, e, tag, ind, uid):
             out.append(f'{ind}    """{tag} doc of {name}."""')
         else:
             out.append(f"{ind}{d} {name}{sig(None)}: ...")
+        for k in range(f.get("late", 0)):      # overloads AFTER the implementation: the group stays pending in the scope's buffer
+            out.append(f"{ind}@overload")
+            out.append(f"{ind}{d} {name}{sig(k + uid + 5)}: ...")
     return out
 
 
@@ -230,7 +235,7 @@ def render_module(scope, tag, doc, typing_import):
 
 
 def uses_overloads(scope):
-    return any((e["k"] == "func" and e["f"]["novl"]) or (e["k"] == "class" and uses_overloads(e["scope"] or [])) for _, e in scope)
+    return any((e["k"] == "func" and (e["f"]["novl"] or e["f"].get("late"))) or (e["k"] == "class" and uses_overloads(e["scope"] or [])) for _, e in scope)
 
 
 SAFE_ANNS = ["int", "str", "float", "bytes", "list[int]", "dict[str, int]", "int | None"]    # evaluable by CPython at import time
@@ -255,6 +260,8 @@ def gen_pair(rng, anns=None, aliases=True):
 
 F1_WITNESS = ("from extpkg import g\nA = 1\n", "from typing import overload\n@overload\ndef g(x: int) -> int: ...\n@overload\ndef g(x: str) -> str: ...\nA: int\n")
 F2_WITNESS = ("class K:\n    def m(self): ...\nA = 1\n", "from typing import overload\n@overload\ndef K(x: int) -> int: ...\n@overload\ndef A(x: str) -> str: ...\n")
+
+F5_WITNESS = ("A = 1\n", "from typing import overload\nclass S:\n    def g(self, x: float) -> float: ...\n    @overload\n    def g(self, x: int) -> int: ...\n")
 
 F3_WITNESS = ("class C:\n    def m(self): ...\n    class D:\n        x = 1\n",
               "class C:\n    def m(self) -> int: ...\n    def only(self) -> int: ...\n    class D:\n        x: int\n        y: str\n")
@@ -297,6 +304,14 @@ CORPUS = [
     ("A = 1\n", ""),
     # implementation before the overloads in the stub (buffer stays pending and the member exists)
     ("def g(x): ...\n", "from typing import overload\ndef g(x: float) -> float: ...\n@overload\ndef g(x: int) -> int: ...\n"),
+    # finding F5: the same inside a stub-only class (the loader's second merge merges the moved class into itself)
+    F5_WITNESS,
+    # ... when the method already has an overload list (objects, not values: the pending group wins)
+    ("A = 1\n", "from typing import overload\nclass S:\n    @overload\n    def g(self, x: int) -> int: ...\n    def g(self, x): ...\n"
+               "    @overload\n    def g(self, x: str) -> str: ...\n    class T:\n        def h(self) -> int: ...\n        @overload\n        def h(self, x: int) -> int: ...\n"),
+    # stub-only class inside a class present on both sides, overload-only groups (buffers drained by the second merge, nothing else)
+    ("class C:\n    a = 1\n", "from typing import overload\nclass C:\n    a: int\n    class S:\n        @overload\n        def m(self) -> int: ...\n"
+                              "        @overload\n        def m(self, x: int) -> str: ...\n        def k(self) -> int: ...\n"),
 ]
 
 
@@ -332,18 +347,23 @@ def abstract(o):
             [[n, abstract(m)] for n, m in o.members.items()]]
 
 
-def norm_result(t):
-    """What is compared of a merged tree: imports sorted, contents of scope buffers dropped (see LEVEL_NOTE)."""
+def norm_result(t, buffers=True):
+    """What is compared of a merged tree: imports sorted.  buffers=False: contents of the per-scope pending-overloads dicts
+    erased (the property does not speak about them; the model does: they are compared by (C))."""
     if t[0] == "alias":
         return t
     if t[0] == "alias_to":
-        return [t[0], t[1], t[2], norm_result(t[3])]
+        return [t[0], t[1], t[2], norm_result(t[3], buffers)]
     t = list(t)
-    if t[OV][0] == "dict":
+    if t[OV][0] == "dict" and not buffers:
         t[OV] = ["dict", []]
     t[IMP] = sorted(t[IMP])
-    t[MEM] = [[n, norm_result(m)] for n, m in t[MEM]]
+    t[MEM] = [[n, norm_result(m, buffers)] for n, m in t[MEM]]
     return t
+
+
+def erase(t):
+    return norm_result(t, buffers=False)
 
 
 def norm_model(r):
@@ -433,6 +453,34 @@ def run_load(search: Path, name: str, member, reverse=False, **kw):
     except Exception as e:  # noqa: BLE001
         return _err(e), [], None
     return ["ok", [obj.filepath.suffix == ".pyi", norm_result(abstract(obj))]], unresolved_ok(top), top
+
+
+NESTED_KEYS = [f"{k}({o})" for k in ("nested", "deep", "leaf") for o in ("py first", "pyi first")]
+
+
+def run_load_nested(search: Path, name: str, members: dict, reverse: bool, drop=()):
+    """One load, several modules of it read: label -> (result, resolved aliases, structure problems).  `drop`: submodules
+    attached below a judged module by the layout itself (not part of the pair)."""
+    import griffe
+    try:
+        with walk_order(reverse):
+            top = griffe.load(name, search_paths=[str(search)], allow_inspection=False)
+    except Exception as e:  # noqa: BLE001
+        return {k: (_err(e), [], []) for k in members}
+    struct = tree_consistency(top, name, None, top.modules_collection)
+    out = {}
+    for k, parts in members.items():
+        try:
+            obj = top
+            for part in parts:
+                obj = obj.members[part]
+            t = abstract(obj)
+            t[MEM] = [[n, x] for n, x in t[MEM] if not (n in drop and x[0] == "obj" and x[KIND] == "module")]
+            out[k] = (["ok", [obj.filepath.suffix == ".pyi", norm_result(t)]], unresolved_ok(obj), struct)
+        except Exception as e:  # noqa: BLE001
+            out[k] = (_err(e), [], struct)
+        struct = []
+    return out
 
 
 def tree_consistency(obj, path, parent, collection, out=None, depth=0):
@@ -551,6 +599,43 @@ def py_gaps(s, o, prefix=()):
     return f1, f2
 
 
+def _pending_self(t, prefix, out):
+    """Inside a MOVED (stub-only) class/module: functions named by a pending overload group of their own scope."""
+    if t[0] != "obj" or t[KIND] not in ("class", "module"):
+        return
+    mem = dict((n, m) for n, m in t[MEM])
+    if t[OV][0] == "dict":
+        for fn, ovs in t[OV][1]:
+            m = mem.get(fn)
+            if ovs and m is not None and m[0] == "obj" and m[KIND] == "function":
+                out.add(prefix + (fn,))
+    for n, m in t[MEM]:
+        _pending_self(m, prefix + (n,), out)
+
+
+def f5_paths(s, o, prefix=(), out=None):
+    """Python mirror of the Coq gap predicate of C19-F5 (negation of [quiet_moved]): paths of functions whose overloads the
+    loader's second merge rewrites because their stub-only class/module is merged into itself."""
+    out = set() if out is None else out
+    if s[0] != "obj" or o[0] != "obj":
+        return out
+    omap = {}
+    for n, t in o[MEM]:
+        omap.setdefault(n, t)
+    for n, sm in s[MEM]:
+        om = omap.get(n)
+        if om is None:
+            _pending_self(sm, prefix + (n,), out)
+        elif om[0] == "obj" and sm[0] == "obj" and om[KIND] == sm[KIND] and om[KIND] in ("module", "class"):
+            f5_paths(sm, om, prefix + (n,), out)
+    return out
+
+
+def only_f5(diffs, gap):
+    return bool(diffs) and all(field == "overloads" and tuple(path) in gap for path, field in diffs)
+
+
+DOUBLE_MERGE = ("toplevel", "stubs-package", "stubs-package nested")
 FIELDS = {KIND: "kind", DOC: "docstring", PARAMS: "parameters", RET: "returns", OV: "overloads", ANN: "annotation", RT: "runtime", IMP: "imports"}
 
 
@@ -643,11 +728,33 @@ def _run_case(ctx, d, case, py, pyi, stream, use_model, idx):
         write(d / "A" / "m" / "__init__.pyi", pyi)
         impl["toplevel"], unresolved["toplevel"], _ = run_load(d / "A", "m", None)
         ctx.observe("toplevel_form", "__init__.py+__init__.pyi")
-    extra_stub, extra_rt = (idx // 2) % 2 == 1, (idx // 4) % 2 == 1
+    # in-package stubs on the __init__ of a NESTED subpackage (pkgn/sub/__init__.py + .pyi) and one level deeper
+    # (pkgn/sub/deep/__init__.py + .pyi), next to a sibling pair inside the subpackage, under both listing orders
+    names_py = {n for n, _ in t_py[MEM]} | {n for n, _ in t_pyi[MEM]}
+    nested = not (names_py & {"sub", "deep", "leaf"})
+    if nested:
+        write(d / "N" / "pkgn" / "__init__.py", "")
+        for sub in (("sub",), ("sub", "deep")):
+            base = d.joinpath("N", "pkgn", *sub)
+            write(base / "__init__.py", py)
+            write(base / "__init__.pyi", pyi)
+        write(d / "N" / "pkgn" / "sub" / "leaf.py", py)
+        write(d / "N" / "pkgn" / "sub" / "leaf.pyi", pyi)
+        for rev in (False, True):
+            tag = "pyi first" if rev else "py first"
+            got = run_load_nested(d / "N", "pkgn", {"nested": ("sub",), "deep": ("sub", "deep"), "leaf": ("sub", "leaf")}, rev, ("deep", "leaf"))
+            for k, (res, unres, struct) in got.items():
+                impl[f"{k}({tag})"], unresolved[f"{k}({tag})"], structure[f"{k}({tag})"] = res, unres, struct
+    ctx.observe("nested_subpackage_placements", int(nested))
+    extra_stub, extra_rt, nested_c = (idx // 2) % 2 == 1, (idx // 4) % 2 == 1, nested and (idx // 8) % 2 == 1
     write(d / "C" / "pkgc" / "__init__.py", '"""R package."""\n')
     write(d / "C" / "pkgc" / "m.py", py)
     write(d / "C" / "pkgc-stubs" / "__init__.pyi", "P: int\n")
     write(d / "C" / "pkgc-stubs" / "m.pyi", pyi)
+    if nested_c:     # the same pair once more as a nested subpackage of the runtime package and of the stubs package
+        write(d / "C" / "pkgc" / "sub" / "__init__.py", py)
+        write(d / "C" / "pkgc-stubs" / "sub" / "__init__.pyi", pyi)
+    ctx.observe("stubs_package_nested_subpackage", int(nested_c))
     if extra_stub:
         write(d / "C" / "pkgc-stubs" / "sonly.pyi", "def s() -> int: ...\n")
     if extra_rt:
@@ -662,8 +769,22 @@ def _run_case(ctx, d, case, py, pyi, stream, use_model, idx):
         ctx.observe("outcome:" + k.split("(")[0], v[0] if v[0] == "ok" else v[1])
 
     # ---- direct evaluation of the property on the implementation
-    expected = norm_result(spec_scope(t_pyi, t_py))
+    expected = erase(spec_scope(t_pyi, t_py))
+    gap5 = f5_paths(t_pyi, t_py)
+    ctx.observe("stub_only_container_with_pending_group_for_own_function(F5)", len(gap5) if len(gap5) < 3 else "3+")
     placements_m = {}
+
+    def judge_tree(k, tree):
+        tree = erase(tree)
+        lost = lost_members(t_py, tree)
+        if lost:
+            ctx.property_failure({**case, "placement": k}, {"lost_runtime_members": lost}, finding=None)
+        diffs = tree_diff(tree, expected)
+        if diffs:
+            ctx.property_failure({**case, "placement": k}, {"differences_from_property": [list(map(str, x)) for x in diffs[:10]],
+                                                            "merged": tree, "expected": expected},
+                                 finding="C19-F5" if k in DOUBLE_MERGE and only_f5(diffs, gap5) else None)
+
     for k, v in impl.items():
         if v[0] == "err":
             ctx.property_failure({**case, "placement": k}, {"raised": v[1], "expected": "no exception"})
@@ -681,31 +802,35 @@ def _run_case(ctx, d, case, py, pyi, stream, use_model, idx):
                 want["sonly"] = False
             if extra_rt:
                 want["ronly"] = True
+            if nested_c:
+                want["sub"] = True
             if pk != want or tree[DOC] != ["R package."]:
                 ctx.property_failure({**case, "placement": k}, {"package_level": pk, "expected": want, "doc": tree[DOC]})
+            if nested_c:
+                placements_m["stubs-package nested"] = erase(mm["sub"])
+                judge_tree("stubs-package nested", mm["sub"])
             tree = mm["m"]
-        placements_m[k] = tree
+        placements_m[k] = erase(tree)
         if is_pyi:
             ctx.property_failure({**case, "placement": k}, {"result_is": "the stubs module (.pyi filepath)", "expected": "the runtime module"})
             continue
-        lost = lost_members(t_py, tree)
-        if lost:
-            ctx.property_failure({**case, "placement": k}, {"lost_runtime_members": lost}, finding=None)
-        diffs = tree_diff(tree, expected)
-        if diffs:
-            ctx.property_failure({**case, "placement": k}, {"differences_from_property": [list(map(str, x)) for x in diffs[:10]],
-                                                            "merged": tree, "expected": expected})
+        judge_tree(k, tree)
         if unresolved[k]:
             ctx.property_failure({**case, "placement": k}, {"aliases_resolved_by_merging": unresolved[k]})
     # order independence / placement independence
     trees = list(placements_m.items())
     for (k1_, v1), (k2_, v2) in zip(trees, trees[1:]):
         if v1 != v2:
-            ctx.property_failure({**case, "placement": f"{k1_} vs {k2_}"}, {"order_or_placement_dependent": [list(map(str, x)) for x in tree_diff(v1, v2)[:10]]})
-    a, b = impl["inpkg(py first)"], impl["inpkg(pyi first)"]
-    sa, sb = (a[1][0] if a[0] == "ok" else a[1]), (b[1][0] if b[0] == "ok" else b[1])
-    if sa != sb:   # which module survived / which error; tree differences are reported above
-        ctx.property_failure({**case, "placement": "inpkg both orders"}, {"py first: result is .pyi / error": sa, "pyi first: result is .pyi / error": sb})
+            dd = tree_diff(v1, v2)
+            ctx.property_failure({**case, "placement": f"{k1_} vs {k2_}"}, {"order_or_placement_dependent": [list(map(str, x)) for x in dd[:10]]},
+                                 finding="C19-F5" if (k1_ in DOUBLE_MERGE) != (k2_ in DOUBLE_MERGE) and only_f5(dd, gap5) else None)
+    for fam in ("inpkg", "nested", "deep", "leaf"):
+        if f"{fam}(py first)" not in impl:
+            continue
+        a, b = impl[f"{fam}(py first)"], impl[f"{fam}(pyi first)"]
+        sa, sb = (a[1][0] if a[0] == "ok" else a[1]), (b[1][0] if b[0] == "ok" else b[1])
+        if sa != sb:   # which module survived / which error; tree differences are reported above
+            ctx.property_failure({**case, "placement": fam + " both orders"}, {"py first: result is .pyi / error": sa, "pyi first: result is .pyi / error": sb})
     if impl["direct(py,pyi)"] != impl["direct(pyi,py)"]:
         ctx.property_failure({**case, "placement": "merge_stubs argument order"}, {"a,b": str(impl["direct(py,pyi)"])[:300], "b,a": str(impl["direct(pyi,py)"])[:300]})
 
@@ -714,9 +839,11 @@ def _run_case(ctx, d, case, py, pyi, stream, use_model, idx):
     # ---- model
     fpy, fpyi = [False, t_py], [True, t_pyi]
     top_c = abstract(visit_file(d / "C" / "pkgc" / "__init__.py", "pkgc"))
-    top_c[MEM] = top_c[MEM] + [["m", t_py]] + ([["ronly", abstract(visit_file(d / "C" / "pkgc" / "ronly.py", "ronly"))]] if extra_rt else [])
+    top_c[MEM] = top_c[MEM] + [["m", t_py]] + ([["ronly", abstract(visit_file(d / "C" / "pkgc" / "ronly.py", "ronly"))]] if extra_rt else []) \
+        + ([["sub", t_py]] if nested_c else [])
     stub_init_c = abstract(visit_file(d / "C" / "pkgc-stubs" / "__init__.pyi", "pkgc"))
-    subs_c = [["m", t_pyi]] + ([["sonly", abstract(visit_file(d / "C" / "pkgc-stubs" / "sonly.pyi", "sonly"))]] if extra_stub else [])
+    subs_c = [["m", t_pyi]] + ([["sonly", abstract(visit_file(d / "C" / "pkgc-stubs" / "sonly.pyi", "sonly"))]] if extra_stub else []) \
+        + ([["sub", t_pyi]] if nested_c else [])
     queries = {
         "direct(py,pyi)": ["merge_stubs", fpy, fpyi],
         "direct(pyi,py)": ["merge_stubs", fpyi, fpy],
@@ -725,9 +852,12 @@ def _run_case(ctx, d, case, py, pyi, stream, use_model, idx):
         "producer(py first)": ["set_member", fpy, fpyi],
         "producer(pyi first)": ["set_member", fpyi, fpy],
         "toplevel": ["load_package", t_py, t_pyi, []],
-        "stubs-package": ["load_package", top_c, stub_init_c, sorted(subs_c)],   # os.walk order within pkgc-stubs: m.pyi, sonly.pyi
+        "stubs-package": ["load_package", top_c, stub_init_c, sorted(subs_c)],   # os.walk order within pkgc-stubs: m.pyi, sonly.pyi, sub/
         "merge": ["merge", t_pyi, t_py],
     }
+    for k in NESTED_KEYS:
+        if k in impl:
+            queries[k] = ["set_member", fpyi, fpy] if "pyi first" in k else ["set_member", fpy, fpyi]
     return case, impl, queries, (f1_paths, f2_paths), expected
 
 
@@ -828,7 +958,7 @@ def all_unresolved(obj, skip=()):
     return bad
 
 
-def run_stub_import_case(ctx, idx, py, pyi, use_model=True):
+def run_stub_import_case(ctx, idx, py, pyi, use_model=True, layout=None):
     import griffe
     d = ctx.scratch / f"imp{idx}"
     try:
@@ -847,7 +977,7 @@ def run_stub_import_case(ctx, idx, py, pyi, use_model=True):
         write(d / "in" / "m.py", m_py)
         write(d / "in" / "m.pyi", m_pyi)
         t_mpy, t_mpyi = abstract(visit_file(d / "in" / "m.py")), abstract(visit_file(d / "in" / "m.pyi"))
-        expected = norm_result(spec_scope(t_mpyi, t_mpy))
+        expected = erase(spec_scope(t_mpyi, t_mpy))
         ctx.case(case, bool(local & set(names)) or bool(shared))
         ctx.observe("stream", "stubs-import-loaded-objects")
         ctx.observe("stub_import(runtime side)", "local+imported" if (local & set(names)) and shared else "local" if local & set(names) else
@@ -865,7 +995,7 @@ def run_stub_import_case(ctx, idx, py, pyi, use_model=True):
             if mod.filepath.suffix == ".pyi":
                 ctx.property_failure({**case, "placement": label}, {"result_is": "the stubs module", "expected": "the runtime module"})
                 return None
-            diffs = tree_diff(got, expected)
+            diffs = tree_diff(erase(got), expected)
             if diffs:
                 ctx.property_failure({**case, "placement": label},
                                      {"merged_an_object_the_stubs_only_import_or_lost_something": [list(map(str, x)) for x in diffs[:10]],
@@ -880,17 +1010,16 @@ def run_stub_import_case(ctx, idx, py, pyi, use_model=True):
                                      {"imported_module_modified": [list(map(str, x)) for x in tree_diff(after, norm_result(t_impl))[:10]]})
             return got
 
-        for k, order in enumerate((["__init__.py", "a_impl.py", "m.py", "m.pyi"], ["__init__.py", "a_impl.py", "m.pyi", "m.py"])):
-            shutil.rmtree(d / "P", ignore_errors=True)
-            write(d / "P" / "pkg" / "__init__.py", "")
-            write(d / "P" / "pkg" / "a_impl.py", impl_src)
-            write(d / "P" / "pkg" / "m.py", m_py)
-            write(d / "P" / "pkg" / "m.pyi", m_pyi)
-            label = f"inpkg({order[2]} first)"
+        base_case = case
+        for lay, k in [(lay, k) for lay in layouts_for(idx, layout) for k in (0, 1)]:
+            parts, orders = lay_pair(d / "P", lay, m_py, m_pyi, {"a_impl.py": impl_src})
+            label = f"inpkg({lay}, {'py' if k == 0 else 'pyi'} first)"
+            case = {**base_case, "layout": lay}
+            ctx.observe("layout:stubs-import-loaded-objects", lay)
             try:
-                with walk_listed(order), merge_watch() as w:
+                with walk_listed(orders[k]), merge_watch() as w:
                     pkg = griffe.load("pkg", search_paths=[str(d / "P")], allow_inspection=False)
-                got = judge(label, pkg.members["m"], pkg.members["a_impl"], watched=w)
+                got = judge(label, member_at(pkg, parts), pkg.members["a_impl"], watched=w)
             except Exception as e:  # noqa: BLE001
                 ctx.property_failure({**case, "placement": label}, {"raised": type(e).__name__, "expected": "no exception"})
                 continue
@@ -903,6 +1032,7 @@ def run_stub_import_case(ctx, idx, py, pyi, use_model=True):
                 if mo != ["ok", [False, got]]:
                     ctx.tie_failure("correspondence", f"model vs griffe [stubs-import-loaded-objects, {label}]",
                                     {"model": str(mo)[:600], "impl": str(got)[:600]}, case)
+        case = base_case
         # the package's own __init__ pair: stubs inside the package / in pkg-stubs
         stubs_pkg = idx % 2 == 1
         write(d / "T" / "site" / "pkg" / "__init__.py", m_py)
@@ -932,9 +1062,9 @@ def run_stub_import_case(ctx, idx, py, pyi, use_model=True):
 # ----------------------------------------------------------------------------------------------------------------------
 EXT_STUB = "def __getattr__(name):\n    return object()\n"
 RUNTIME_PROBE = """
-import inspect, json, sys
+import importlib, inspect, json, sys
 sys.path[:0] = [sys.argv[1], sys.argv[2]]
-import pkg
+pkg = importlib.import_module(sys.argv[3])
 out = {}
 for name in dir(pkg):
     if name.startswith("_"):
@@ -977,7 +1107,53 @@ def stub_declarations(src):
     return decl
 
 
-def run_facade_case(ctx, idx, py, pyi):
+FACADE_SRC = '"""Public package."""\nfrom _pkg import *\n'
+
+
+def run_facade_nested(ctx, d, case, parts, at_runtime, declared, pyi):
+    """The facade is the __init__ of a NESTED subpackage (pkg/sub[/deep]/__init__.py = `from _pkg import *`) with its stubs
+    next to it.  In-package stubs are merged while the submodules are loaded, BEFORE any wildcard is expanded
+    (finding C19-F4): the re-exported names are taken for stub-only members.  A failure is attributed to F4 only when the
+    live tree is exactly what the model of the unchanged code computes for the pair as visited (wildcard unexpanded)."""
+    import griffe
+    base = d.joinpath("site", "pkg", *parts)
+    t_py, t_pyi = abstract(visit_file(base / "__init__.py", parts[-1])), abstract(visit_file(base / "__init__.pyi", parts[-1]))
+    try:
+        model_r = ctx.model([["set_member", [False, t_py], [True, t_pyi]], ["set_member", [True, t_pyi], [False, t_py]]]) if ctx.driver is not None else None
+    except Exception:  # noqa: BLE001
+        model_r = None
+    trees = []
+    for k, rev in enumerate((False, True)):
+        label = {**case, "order": "pyi first" if rev else "py first"}
+        try:
+            with walk_order(rev):
+                pkg = griffe.load("pkg", search_paths=[str(d / "site")], allow_inspection=False, try_relative_path=False)
+            mod = member_at(pkg, parts)
+            live = ["ok", [mod.filepath.suffix == ".pyi", norm_result(abstract(mod))]]
+            probs = facade_problems(mod, at_runtime, declared, ".".join(("pkg",) + parts))
+        except Exception as e:  # noqa: BLE001
+            ctx.observe("outcome:wildcard-facade", type(e).__name__)
+            ctx.property_failure(label, {"raised": type(e).__name__, "expected": "no exception"})
+            continue
+        ctx.observe("outcome:wildcard-facade", "ok")
+        trees.append(live)
+        confirmed = False
+        if model_r is not None:
+            mo = norm_model(model_r[k])
+            confirmed = mo == live
+            if not confirmed:
+                ctx.tie_failure("correspondence", f"model vs griffe [wildcard-facade nested, {label['order']}]",
+                                {"model": str(mo)[:600], "impl": str(live)[:600]}, label)
+        wildcard_pending = any(n.endswith("/*") for n, _ in live[1][1][MEM])
+        ctx.observe("facade_nested", "problems" if probs else "clean")
+        if probs:
+            ctx.property_failure({**label, "stage": "after load"}, {"against_cpython_and_the_pyi": probs[:10]},
+                                 finding="C19-F4" if confirmed and wildcard_pending and live[1][0] is False else None)
+    if len(trees) == 2 and trees[0] != trees[1]:
+        ctx.property_failure(case, {"order_dependent": [list(map(str, x)) for x in tree_diff(trees[0][1][1], trees[1][1][1])[:10]]})
+
+
+def run_facade_case(ctx, idx, py, pyi, placement=None):
     import subprocess
     import sys
     import griffe
@@ -985,19 +1161,29 @@ def run_facade_case(ctx, idx, py, pyi):
     try:
         site, ext = d / "site", d / "ext"
         write(site / "_pkg" / "__init__.py", py)
-        write(site / "pkg" / "__init__.py", '"""Public package."""\nfrom _pkg import *\n')
         for f in ("extpkg/__init__.py", "extpkg/sub.py", "otherpkg/__init__.py", "otherpkg/deep/__init__.py", "otherpkg/deep/mod.py"):
             write(ext / f, EXT_STUB)
-        stubs_pkg = idx % 2 == 1
-        if stubs_pkg:
-            write(d / "stubs" / "pkg-stubs" / "__init__.pyi", pyi)
-            paths = [str(d / "stubs"), str(site)]
-        else:
-            write(site / "pkg" / "__init__.pyi", pyi)
+        kind = placement or ("__init__.pyi", "pkg-stubs", "nested", "pkg-stubs", "__init__.pyi", "deep")[idx % 6]
+        stubs_pkg = kind == "pkg-stubs"
+        parts = {"nested": ("sub",), "deep": ("sub", "deep")}.get(kind, ())
+        if parts:
+            write(site / "pkg" / "__init__.py", '"""Top package."""\n')
+            if kind == "deep":
+                write(site / "pkg" / "sub" / "__init__.py", "")
+            write(site.joinpath("pkg", *parts) / "__init__.py", FACADE_SRC)
+            write(site.joinpath("pkg", *parts) / "__init__.pyi", pyi)
             paths = [str(site)]
-        placement = "facade + " + ("pkg-stubs" if stubs_pkg else "__init__.pyi")
+        else:
+            write(site / "pkg" / "__init__.py", FACADE_SRC)
+            if stubs_pkg:
+                write(d / "stubs" / "pkg-stubs" / "__init__.pyi", pyi)
+                paths = [str(d / "stubs"), str(site)]
+            else:
+                write(site / "pkg" / "__init__.pyi", pyi)
+                paths = [str(site)]
+        placement = "facade + " + kind
         case = {"_pkg/__init__.py": py, "pkg/__init__.py": "from _pkg import *", "pkg stubs": pyi, "placement": placement, "stream": "wildcard-facade"}
-        proc = subprocess.run([sys.executable, "-c", RUNTIME_PROBE, str(site), str(ext)], capture_output=True, text=True,
+        proc = subprocess.run([sys.executable, "-c", RUNTIME_PROBE, str(site), str(ext), ".".join(("pkg",) + parts)], capture_output=True, text=True,
                               env={"PATH": os.environ.get("PATH", ""), "PYTHONDONTWRITEBYTECODE": "1"})
         if proc.returncode != 0:
             ctx.observe("facade_runtime", "not importable")
@@ -1007,6 +1193,10 @@ def run_facade_case(ctx, idx, py, pyi):
         declared = stub_declarations(pyi)
         ctx.case(case, bool(set(at_runtime) & set(declared)))
         ctx.observe("stream", "wildcard-facade")
+        ctx.observe("facade_placement", kind)
+        if parts:
+            run_facade_nested(ctx, d, case, parts, at_runtime, declared, pyi)
+            return
         try:
             loader = griffe.GriffeLoader(search_paths=paths, allow_inspection=False)
             pkg = loader.load("pkg", try_relative_path=False, find_stubs_package=True)
@@ -1025,22 +1215,22 @@ def run_facade_case(ctx, idx, py, pyi):
         shutil.rmtree(d, ignore_errors=True)
 
 
-def facade_problems(pkg, at_runtime, declared):
+def facade_problems(pkg, at_runtime, declared, where="pkg"):
     import griffe
     probs = []
     for name, (kind, doc, params) in at_runtime.items():
         if kind == "other":
             continue
         if name not in pkg.members:
-            probs.append(f"pkg.{name} exists at runtime (CPython) but is missing from the merged module")
+            probs.append(f"{where}.{name} exists at runtime (CPython) but is missing from the merged module")
             continue
         member = pkg.members[name]
         if not member.runtime:
-            probs.append(f"pkg.{name} exists at runtime (CPython) but is marked runtime=False")
+            probs.append(f"{where}.{name} exists at runtime (CPython) but is marked runtime=False")
         spec = declared.get(name)
         try:
             if member.kind.value != kind:
-                probs.append(f"pkg.{name} is a {member.kind.value}, CPython says {kind}")
+                probs.append(f"{where}.{name} is a {member.kind.value}, CPython says {kind}")
                 continue
             same = spec is not None and spec["kind"] == kind
             if kind in ("function", "class"):
@@ -1048,36 +1238,36 @@ def facade_problems(pkg, at_runtime, declared):
                 stub_doc = ((spec.get("impl") or {}).get("doc") if kind == "function" else spec.get("doc")) if same else None
                 want = doc if doc is not None else stub_doc
                 if got != want:
-                    probs.append(f"pkg.{name} docstring is {got!r}, expected {want!r} (CPython: {doc!r}, stubs: {stub_doc!r})")
+                    probs.append(f"{where}.{name} docstring is {got!r}, expected {want!r} (CPython: {doc!r}, stubs: {stub_doc!r})")
             if not same:
                 continue
             if kind == "function":
                 if spec["impl"] is not None:
                     got = None if member.returns is None else str(member.returns)
                     if got != spec["impl"]["returns"]:
-                        probs.append(f"pkg.{name} returns {got}, the stubs say {spec['impl']['returns']}")
+                        probs.append(f"{where}.{name} returns {got}, the stubs say {spec['impl']['returns']}")
                     for p in params:
                         if p in spec["impl"]["parameters"]:
                             a = member.parameters[p].annotation
                             if (None if a is None else str(a)) != spec["impl"]["parameters"][p]:
-                                probs.append(f"pkg.{name}({p}) is annotated {a}, the stubs say {spec['impl']['parameters'][p]}")
+                                probs.append(f"{where}.{name}({p}) is annotated {a}, the stubs say {spec['impl']['parameters'][p]}")
                 if spec["overloads"] and len(member.overloads or []) != spec["overloads"]:
-                    probs.append(f"pkg.{name} has {len(member.overloads or [])} overloads, the stubs declare {spec['overloads']}")
+                    probs.append(f"{where}.{name} has {len(member.overloads or [])} overloads, the stubs declare {spec['overloads']}")
             elif kind == "attribute":
                 a = member.annotation
                 if (None if a is None else str(a)) != spec["annotation"]:
-                    probs.append(f"pkg.{name} is annotated {a}, the stubs say {spec['annotation']}")
+                    probs.append(f"{where}.{name} is annotated {a}, the stubs say {spec['annotation']}")
         except (griffe.AliasResolutionError, griffe.CyclicAliasError) as e:
-            probs.append(f"pkg.{name} cannot be inspected ({type(e).__name__})")
+            probs.append(f"{where}.{name} cannot be inspected ({type(e).__name__})")
     for name, spec in declared.items():
         if name in at_runtime:
             continue
         if spec["kind"] == "function" and spec["impl"] is None:
             continue                      # overloads only: no member is created for them
         if name not in pkg.members:
-            probs.append(f"pkg.{name} declared in the stubs is missing from the merged module")
+            probs.append(f"{where}.{name} declared in the stubs is missing from the merged module")
         elif pkg.members[name].runtime:
-            probs.append(f"stub-only pkg.{name} is not marked as unavailable at runtime")
+            probs.append(f"stub-only {where}.{name} is not marked as unavailable at runtime")
     return probs
 
 
@@ -1099,11 +1289,16 @@ def compare_with_model(ctx, batch):
             XCHECK.extend([b[2]["merge"], b[2]["inpkg(py first)"], b[2]["stubs-package"]][:2 if len(XCHECK) > 24 else 3])
     keys = ["direct(py,pyi)", "direct(pyi,py)", "inpkg(py first)", "inpkg(pyi first)", "producer(py first)", "producer(pyi first)",
             "toplevel", "stubs-package", "merge"]
-    flat = [b[2][k] for b in batch for k in keys]
+    flat, spans = [], []
+    for b in batch:
+        ks = keys + [k for k in NESTED_KEYS if k in b[2]]
+        spans.append((len(flat), ks))
+        flat += [b[2][k] for k in ks]
     outs = ctx.model(flat)
     for i, (case, impl, queries, (f1p, f2p), expected) in enumerate(batch):
-        res = dict(zip(keys, outs[i * len(keys):(i + 1) * len(keys)]))
-        for k in keys[:8]:
+        start, ks = spans[i]
+        res = dict(zip(ks, outs[start:start + len(ks)]))
+        for k in [x for x in ks if x != "merge"]:
             m = norm_model(res[k])
             got = impl[k]
             if k in ("toplevel", "stubs-package") and got[0] == "ok":
@@ -1115,6 +1310,8 @@ def compare_with_model(ctx, batch):
                                  "model": str(m)[:600], "impl": str(got)[:600]}, case)
         # the theorems read as a function, sampled: the model's merge is the declarative reading of the property
         mm = norm_model(res["merge"])
+        if mm[0] == "ok":
+            mm = ["ok", erase(mm[1])]
         if mm != ["ok", expected]:
             ctx.tie_failure("oracle", "merge_obj (model) vs declarative spec (python)", {"model": str(mm)[:600], "spec": str(expected)[:600]}, case)
         ctx.count("model_cases")
@@ -1151,7 +1348,41 @@ class walk_listed:
         os.walk = self.real
 
 
-def run_resolvable_case(ctx, idx, py, pyi, use_model=True):
+# where the (module, stubs) pair sits inside pkg: sibling files, the __init__ pair of a nested subpackage, one level deeper
+LAYOUTS = {"flat": ("m",), "nested": ("sub",), "deep": ("sub", "deep")}
+
+
+def lay_pair(root: Path, layout: str, py: str, pyi: str, others: dict):
+    """Write pkg/ with the third files `others` and the pair placed per layout; returns (member parts, the two listing orders)."""
+    shutil.rmtree(root, ignore_errors=True)
+    write(root / "pkg" / "__init__.py", "")
+    for fn, src in others.items():
+        write(root / "pkg" / fn, src)
+    parts = LAYOUTS[layout]
+    if layout == "flat":
+        write(root / "pkg" / "m.py", py)
+        write(root / "pkg" / "m.pyi", pyi)
+        head = ["__init__.py", *others]
+        return parts, (head + ["m.py", "m.pyi"], head + ["m.pyi", "m.py"])
+    if layout == "deep":
+        write(root / "pkg" / "sub" / "__init__.py", "")
+    base = root.joinpath("pkg", *parts)
+    write(base / "__init__.py", py)
+    write(base / "__init__.pyi", pyi)
+    return parts, (["__init__.py", *others, "__init__.pyi"], ["__init__.pyi", "__init__.py", *others])
+
+
+def layouts_for(idx, only=None):
+    return [only] if only else ["flat", "nested" if idx % 2 == 0 else "deep"]
+
+
+def member_at(top, parts):
+    for part in parts:
+        top = top.members[part]
+    return top
+
+
+def run_resolvable_case(ctx, idx, py, pyi, use_model=True, layout=None):
     import griffe
     d = ctx.scratch / f"res{idx}"
     try:
@@ -1170,7 +1401,7 @@ def run_resolvable_case(ctx, idx, py, pyi, use_model=True):
             restricted[OV] = ["dict", [[k, v] for k, v in t_pyi[OV][1] if k in imported]]
         exp = spec_scope(restricted, t_impl)
         exp[DOC], exp[IMP] = t_impl[DOC], t_impl[IMP]
-        exp = norm_result(exp)
+        exp = erase(exp)
         want_m = [[n, "alias", "pkg.a_impl." + n, True] for n in imported] + \
                  [[n, t[0], t[1] if t[0] == "alias" else t[KIND], False] for n, t in t_pyi[MEM] if n not in imported]
         ctx.case(case, bool(restricted[MEM]))
@@ -1185,47 +1416,48 @@ def run_resolvable_case(ctx, idx, py, pyi, use_model=True):
         if use_model and len(XCHECK) < 60 and idx % 5 == 0:
             XCHECK.extend(model_q[1:])
         results = []
-        for order in (["__init__.py", "a_impl.py", "m.py", "m.pyi"], ["__init__.py", "a_impl.py", "m.pyi", "m.py"]):
-            shutil.rmtree(d / "P", ignore_errors=True)
-            write(d / "P" / "pkg" / "__init__.py", "")
-            write(d / "P" / "pkg" / "a_impl.py", py)
-            write(d / "P" / "pkg" / "m.py", m_src)
-            write(d / "P" / "pkg" / "m.pyi", pyi)
+        base_case = case
+        for lay, k in [(lay, k) for lay in layouts_for(idx, layout) for k in (0, 1)]:
+            parts, orders = lay_pair(d / "P", lay, m_src, pyi, {"a_impl.py": py})
+            order = [lay, "py first" if k == 0 else "pyi first"]
+            case = {**base_case, "layout": lay}
             try:
-                with walk_listed(order):
+                with walk_listed(orders[k]):
                     pkg = griffe.load("pkg", search_paths=[str(d / "P")], allow_inspection=False)
                 got = norm_result(abstract(pkg.members["a_impl"]))
-                m = pkg.members["m"]
+                m = member_at(pkg, parts)
                 got_m = [[n, "alias" if x.is_alias else "obj", x.target_path if x.is_alias else x.kind.value, bool(x.runtime)] for n, x in m.members.items()]
                 is_pyi = m.filepath.suffix == ".pyi"
             except Exception as e:  # noqa: BLE001
-                ctx.property_failure({**case, "order": order[2:]}, {"raised": type(e).__name__, "expected": "no exception"})
+                ctx.property_failure({**case, "order": order}, {"raised": type(e).__name__, "expected": "no exception"})
                 ctx.observe("outcome:alias-to-loaded-target", type(e).__name__)
                 continue
             ctx.observe("outcome:alias-to-loaded-target", "ok")
+            ctx.observe("layout:alias-to-loaded-target", lay)
             results.append((got, got_m, is_pyi))
             if model_r is not None:
                 after = dict((n, x) for n, x in pkg.members["a_impl"].members.items())
                 live = abstract(m)
                 live[MEM] = [[n, (["alias_to", t[1], t[2], abstract(after[n])] if n in imported else t)] for n, t in live[MEM]]
                 got_c = ["ok", [is_pyi, norm_result(live)]]
-                mo = norm_model(model_r[0 if order[2] == "m.py" else 1])
+                mo = norm_model(model_r[k])
                 ctx.observe("model_outcome(alias-to-loaded-target)", mo[0] if mo[0] == "ok" else mo[1])
                 if mo != got_c:
-                    ctx.tie_failure("correspondence", f"model vs griffe [alias-to-loaded-target, {order[2]} first]",
+                    ctx.tie_failure("correspondence", f"model vs griffe [alias-to-loaded-target, {lay}, {order[1]}]",
                                     {"differences": [list(map(str, x)) for x in (tree_diff(_tree(mo), _tree(got_c))[:8] if mo[0] == "ok" else [])],
                                      "model": str(mo)[:600], "impl": str(got_c)[:600]}, case)
             if is_pyi:
-                ctx.property_failure({**case, "order": order[2:]}, {"result_is": "the stubs module", "expected": "the runtime module"})
-            if got_m != [[n, ("alias" if k == "alias" else "obj"), v, r] for n, k, v, r in want_m]:
-                ctx.property_failure({**case, "order": order[2:]}, {"members_of_m": got_m, "expected": want_m})
-            diffs = tree_diff(got, exp)
+                ctx.property_failure({**case, "order": order}, {"result_is": "the stubs module", "expected": "the runtime module"})
+            if got_m != [[n, ("alias" if kk == "alias" else "obj"), v, r] for n, kk, v, r in want_m]:
+                ctx.property_failure({**case, "order": order}, {"members_of_m": got_m, "expected": want_m})
+            diffs = tree_diff(erase(got), exp)
             if diffs:
-                ctx.property_failure({**case, "order": order[2:]}, {"target_module_differs_from_property": [list(map(str, x)) for x in diffs[:10]],
-                                                                   "a_impl_after": got, "expected": exp})
-        if len(results) == 2 and results[0] != results[1]:
-            ctx.property_failure(case, {"order_dependent": [list(map(str, x)) for x in tree_diff(results[0][0], results[1][0])[:10]],
-                                        "m_first": results[0][1], "m_second": results[1][1]})
+                ctx.property_failure({**case, "order": order}, {"target_module_differs_from_property": [list(map(str, x)) for x in diffs[:10]],
+                                                                "a_impl_after": got, "expected": exp})
+        for r0, r1 in zip(results, results[1:]):
+            if r0 != r1:
+                ctx.property_failure(base_case, {"order_or_layout_dependent": [list(map(str, x)) for x in tree_diff(r0[0], r1[0])[:10]],
+                                                 "m_first": r0[1], "m_second": r1[1]})
     finally:
         shutil.rmtree(d, ignore_errors=True)
 
@@ -1259,8 +1491,11 @@ def explore(ctx):
             batch = []
     if batch:
         compare_with_model(ctx, batch)
+    ctx.witness("C19-F5", ctx.known_hits.get("C19-F5", 0) > 0)      # F5_WITNESS is a corpus pair (always run)
     for k, (py, pyi) in enumerate(FACADE_CORPUS):
-        run_facade_case(ctx, k, py, pyi)
+        for j, pl in enumerate(("__init__.pyi", "pkg-stubs", "nested", "deep")):
+            run_facade_case(ctx, 1000 + 10 * k + j, py, pyi, placement=pl)
+    ctx.witness("C19-F4", ctx.known_hits.get("C19-F4", 0) > 0)      # the hand pair above in the nested placement is the witness
     for k in range(ctx.budget(70, 900)):
         py, pyi = gen_pair(ctx.rng, anns=SAFE_ANNS)
         run_facade_case(ctx, len(FACADE_CORPUS) + k, py, pyi)
@@ -1297,7 +1532,9 @@ def replay(ctx, data):
         print("---- _pkg/__init__.py\n" + case["_pkg/__init__.py"] + "---- pkg/__init__.py\nfrom _pkg import *\n---- stubs for pkg (" + case["placement"] + ")\n" + case["pkg stubs"])
         ctx.scratch.mkdir(parents=True, exist_ok=True)
         try:
-            run_facade_case(ctx, 1 if "pkg-stubs" in case["placement"] else 0, case["_pkg/__init__.py"], case["pkg stubs"])
+            run_facade_case(ctx, 0, case["_pkg/__init__.py"], case["pkg stubs"], placement=case["placement"].replace("facade + ", ""))
+            for t in ctx.tie_failures:
+                print("MODEL DISAGREES:", t["name"], json.dumps(t["detail"], default=str)[:1500])
             for f in ctx.prop_failures:
                 print("PROPERTY FAILURE:", json.dumps(f["detail"], default=str)[:1500], "classified:", f["classified_as"])
         finally:
@@ -1309,7 +1546,7 @@ def replay(ctx, data):
         try:
             py = case["m.py"]
             py = py[:py.rindex("from pkg.a_impl import")] if "from pkg.a_impl import" in py else py
-            run_stub_import_case(ctx, 0, py, case["a_impl.py"], use_model=ctx.driver is not None)
+            run_stub_import_case(ctx, 0, py, case["a_impl.py"], use_model=ctx.driver is not None, layout=case.get("layout"))
             for f in ctx.prop_failures:
                 print("PROPERTY FAILURE:", json.dumps(f["detail"], default=str)[:1500], "classified:", f["classified_as"])
             for t in ctx.tie_failures:
@@ -1321,7 +1558,7 @@ def replay(ctx, data):
         print("---- pkg/a_impl.py\n" + case["a_impl.py"] + "---- pkg/m.py\n" + case["m.py"] + "---- pkg/m.pyi\n" + case["m.pyi"])
         ctx.scratch.mkdir(parents=True, exist_ok=True)
         try:
-            run_resolvable_case(ctx, 0, case["a_impl.py"], case["m.pyi"], use_model=ctx.driver is not None)
+            run_resolvable_case(ctx, 0, case["a_impl.py"], case["m.pyi"], use_model=ctx.driver is not None, layout=case.get("layout"))
             for f in ctx.prop_failures:
                 print("PROPERTY FAILURE:", json.dumps(f["detail"], default=str)[:1500], "classified:", f["classified_as"])
             for t in ctx.tie_failures:
